@@ -107,6 +107,7 @@ INST_ELEM(ElemNR, uint16_t)
 INST_ELEM(ElemTR, uint16_t)
 SW(ElemNR, uint8_t, uint8_t)
 SW(ElemTR, uint8_t, uint8_t)
+SW(ElemTC, uint8_t, uint8_t)
 SW(ElemNR, uint8_t, uint16_t)
 SW(ElemNR, uint16_t, uint8_t)
 #endif
